@@ -33,10 +33,11 @@ Definition check_json (c : jcase) : bool :=
   str_eqb (jdumps srt v) text && forallb check_parse ps.
 
 (* ---- stream field : the JSONField family ---- *)
-Definition fcase : Type := (nat * obj * str * obj) * json.
+(* fg: the constructor was called with forgiving=True among its keyword arguments (it is passed on to _set_fields) *)
+Definition fcase : Type := (nat * bool * obj * str * obj) * json.
 
-Definition obs_field (c : jclass) (kw : obj) (textx : str) (ukw : obj) : json :=
-  match construct VA c kw with
+Definition obs_field (c : jclass) (fg : bool) (kw : obj) (textx : str) (ukw : obj) : json :=
+  match set_fields VA c fg kw (defaults c) with
   | Err e => JArr [jerr e]
   | Ok x =>
     let t := to_json c x in
@@ -45,13 +46,18 @@ Definition obs_field (c : jclass) (kw : obj) (textx : str) (ukw : obj) : json :=
            jres (jopt JObj) dec;
            match dec with Ok (Some y) => JStr (to_json c y) | _ => JNull end;
            jres (jopt JObj) (from_json VA c (Some textx));
-           jres JObj (update VA c x ukw) ]
+           jres JObj (update VA c x ukw);
+           (* the original after the marker "ZZ" was appended in place to every list-valued field of the result *)
+           match update VA c x ukw with
+           | Ok _ => let x' := orig_after_result_lists_grow x ukw (JStr (S"ZZ")) in JArr [JObj x'; JStr (to_json c x')]
+           | Err _ => JNull
+           end ]
   end.
 
 Definition check_field (c : fcase) : bool :=
-  let '((i, kw, textx, ukw), o) := c in
+  let '((i, fg, kw, textx, ukw), o) := c in
   match nth_error gen_classes i with
-  | Some cl => json_eqb (obs_field cl kw textx ukw) o
+  | Some cl => json_eqb (obs_field cl fg kw textx ukw) o
   | None => false
   end.
 
@@ -148,14 +154,15 @@ Definition mret_json (r : mret) : json :=
 Definition minfo_json (m : minfo) : json :=
   JArr [ JArr (map (fun ne => JArr [JStr (fst ne); mentry_json (snd ne)]) (mi_nodes m)); JBool (mi_lock m) ].
 
-Definition obs_maint (ops : list mop) (textx : option str) : json :=
-  let '(m, rets) := mrun mi_empty ops in
+Definition obs_maint (ops : list mop2) (textx : option str) : json :=
+  let '((m, cp), rets) := mrun2 (mi_empty, None) ops in
   let t := mi_to_json m in
   let dec := match t with Ok s => Some (mi_from_json VISOA (Some s)) | Err _ => None end in
   JArr [ JArr (map mret_json rets); minfo_json m; jres JStr t;
          jopt (jres (jopt minfo_json)) dec;
          match dec with Some (Ok (Some q)) => jres JStr (mi_to_json q) | _ => JNull end;
-         jres (jopt minfo_json) (mi_from_json VISOA textx) ].
+         jres (jopt minfo_json) (mi_from_json VISOA textx);
+         jopt minfo_json cp ].
 
-Definition check_maint (c : (list mop * option str) * json) : bool :=
+Definition check_maint (c : (list mop2 * option str) * json) : bool :=
   let '((ops, textx), o) := c in json_eqb (obs_maint ops textx) o.
